@@ -55,7 +55,7 @@ Lemma leaf_table_ok : Forall entry_ok leaf_table.
 Proof.
   unfold leaf_table.
   repeat apply Forall_cons; try apply Forall_nil; split; cbn [fst snd];
-    try first [ exact lossless_ftyp | exact lossless_free | exact lossless_mdat | exact lossless_mfhd
+    try first [ exact lossless_ftyp | exact lossless_free | exact lossless_empty | exact lossless_b4 | exact lossless_mdat | exact lossless_mfhd
               | exact lossless_tfhd | exact lossless_tfdt | exact lossless_trun | exact lossless_mvhd
               | exact lossless_tkhd | exact lossless_sidx | exact lossless_trex | exact lossless_mdhd
               | exact lossless_hdlr | exact lossless_stts
@@ -75,7 +75,7 @@ Proof.
     try (apply (uuid_name _ _ _ _ _ H));
     try (apply (elng_name _ _ _ _ _ H));
     try (unfold dec_mdat in H; destruct (rdB (payload_len h) r) as [[x r1]| | |]; injection H; intros; subst; reflexivity);
-    unfold dec_ftyp, dec_free, dec_mfhd, dec_tfhd, dec_tfdt, dec_trun, dec_mvhd, dec_tkhd, dec_sidx, dec_trex, dec_mdhd,
+    unfold dec_ftyp, dec_free, dec_empty, dec_b4, dec_mfhd, dec_tfhd, dec_tfdt, dec_trun, dec_mvhd, dec_tkhd, dec_sidx, dec_trex, dec_mdhd,
       dec_hdlr, dec_stts, dec_stsc, dec_stsz, dec_tab, dec_sdtp, dec_ctts, dec_elst, dec_saiz, dec_saio, dec_sbgp, dec_prft,
       dec_tenc, dec_frma, dec_vmhd, dec_smhd, dec_fullonly, dec_mfro, dec_mehd, dec_tfra, dec_pssh,
       dec_url, dec_btrt, dec_pasp, dec_colr, dec_clap, dec_schm, dec_cslg, dec_senc, dec_emsg, dec_kind, dec_subs, dec_sgpd in H;
@@ -91,6 +91,6 @@ Lemma pre_table_ok : Forall pre_entry_ok pre_table.
 Proof.
   unfold pre_table.
   repeat apply Forall_cons; try apply Forall_nil; split; cbn [fst snd];
-    try first [ exact lossless_stsd | exact lossless_dref | exact lossless_visual | exact lossless_audio ];
-    intros h r l rsv r' Hn H; unfold dec_stsd, dec_dref, dec_visual, dec_audio in H; name_of H.
+    try first [ exact lossless_stsd | exact lossless_dref | exact lossless_visual | exact lossless_audio | exact lossless_fullonly ];
+    intros h r l rsv r' Hn H; unfold dec_stsd, dec_dref, dec_visual, dec_audio, dec_fullonly in H; name_of H.
 Qed.
